@@ -2,6 +2,7 @@ import GotranxProofs.GenValidRL
 import GotranxProofs.Properties.C05
 import GotranxProofs.Properties.C06
 import GotranxProofs.Properties.C13
+import GotranxProofs.Properties.C12
 /-!
 # The scheme programs of the `Impl` generators compute the documented step
 
@@ -436,6 +437,115 @@ theorem solution_withLin {α} (N : Num α) (m : Model) (π : DepOrder) (L : Layo
     intro y hy
     have hy' : y ∈ fv e := DiffFv.sub_diff X e y hy
     exact (withLin_other N m ρ y (mentioned_not_helper m hcl hwf (d, e) (lookup_mem _ _ _ he) y hy')).symm
+
+/-! ### consequences: removal invariance (C12) and the hybrid scheme by value (C07) -/
+
+/-- **C12 for explicit Euler on the `Impl` layer**: the programs generated with and without
+unused-variable removal write the same value into every state slot. -/
+theorem genEuler_removal_invariant {α} (N : Num α) (m : Model) (π : DepOrder) (L : Layout) (p0 p1 : List Stmt)
+    (inp : Inputs α) (t dt : α) (ρ : Env α) (s0 s1 : St α)
+    (hwf : ModelWF m) (hπ : ∀ a ∈ m.assigns, ∀ y ∈ fv a.2, y ∈ π a.1 a.2)
+    (hdtn : "dt" ∉ m.stateNames ∧ "dt" ∉ m.paramNames ∧ "dt" ∉ m.assignNames ∧ "dt" ∉ missingVariables m)
+    (hL : layout m π = some L) (hp0 : genEuler m π false = some p0) (hp1 : genEuler m π true = some p1)
+    (hsol : Solution N m L inp t ρ) (hdt : ρ "dt" = some dt)
+    (hx0 : exec N inp (initScheme t dt) p0 = some s0) (hx1 : exec N inp (initScheme t dt) p1 = some s1) :
+    ∀ i X, L.state[i]? = some X → s0.result i = s1.result i := by
+  intro i X hiX
+  obtain ⟨d0, x0, f0, hd0, hx0', hf0, hr0⟩ := genEuler_correct N m π false L p0 inp t dt ρ s0 hwf hπ hdtn hL hp0 hsol hdt hx0 i X hiX
+  obtain ⟨d1, x1, f1, hd1, hx1', hf1, hr1⟩ := genEuler_correct N m π true L p1 inp t dt ρ s1 hwf hπ hdtn hL hp1 hsol hdt hx1 i X hiX
+  have hd : d0 = d1 := derivsFunctional m hwf d0 d1 X hd0 hd1
+  subst hd
+  rw [hx0'] at hx1'
+  rw [hf0] at hf1
+  cases hx1'; cases hf1
+  rw [hr0, hr1]
+
+/-- **C12 for the Rush–Larsen programs on the `Impl` layer** -/
+theorem genGRL_removal_invariant {α} (N : Num α) (m : Model) (π : DepOrder) (L : Layout) (delta : Expr) (p0 p1 : List Stmt)
+    (inp : Inputs α) (t dt : α) (ρ : Env α) (s0 s1 : St α)
+    (hwf : ModelWF m) (hcl : NoHelperClash m) (hπ : ∀ a ∈ m.assigns, ∀ y ∈ fv a.2, y ∈ π a.1 a.2)
+    (hδ : fv delta = []) (hL : layout m π = some L)
+    (hp0 : genGRL m π false delta = some p0) (hp1 : genGRL m π true delta = some p1)
+    (hsol : Solution N m L inp t ρ) (hdt : ρ "dt" = some dt)
+    (hlin : ∀ d X e, m.stateOfDeriv d = some X → m.rhsOf d = some e → ρ (linName d) = eval N ρ (diff X e))
+    (hx0 : exec N inp (initScheme t dt) p0 = some s0) (hx1 : exec N inp (initScheme t dt) p1 = some s1) :
+    ∀ i X, L.state[i]? = some X → s0.result i = s1.result i := by
+  intro i X hiX
+  obtain ⟨d0, e0, hd0, he0, _, hr0⟩ := genGRL_correct N m π false L delta p0 inp t dt ρ s0 hwf hcl hπ hδ hL hp0 hsol hdt hlin hx0 i X hiX
+  obtain ⟨d1, e1, hd1, he1, _, hr1⟩ := genGRL_correct N m π true L delta p1 inp t dt ρ s1 hwf hcl hπ hδ hL hp1 hsol hdt hlin hx1 i X hiX
+  have hd : d0 = d1 := derivsFunctional m hwf d0 d1 X hd0 hd1
+  subst hd
+  rw [he0] at he1
+  cases he1
+  rw [hr0, hr1]
+
+theorem genHybrid_removal_invariant {α} (N : Num α) (m : Model) (π : DepOrder) (L : Layout) (delta : Expr)
+    (stiff : List Name) (p0 p1 : List Stmt) (inp : Inputs α) (t dt : α) (ρ : Env α) (s0 s1 : St α)
+    (hwf : ModelWF m) (hcl : NoHelperClash m) (hπ : ∀ a ∈ m.assigns, ∀ y ∈ fv a.2, y ∈ π a.1 a.2)
+    (hδ : fv delta = []) (hL : layout m π = some L)
+    (hp0 : genHybrid m π false delta stiff = some p0) (hp1 : genHybrid m π true delta stiff = some p1)
+    (hsol : Solution N m L inp t ρ) (hdt : ρ "dt" = some dt)
+    (hlin : ∀ d X e, m.stateOfDeriv d = some X → m.rhsOf d = some e → ρ (linName d) = eval N ρ (diff X e))
+    (hx0 : exec N inp (initScheme t dt) p0 = some s0) (hx1 : exec N inp (initScheme t dt) p1 = some s1) :
+    ∀ i X, L.state[i]? = some X → s0.result i = s1.result i := by
+  intro i X hiX
+  obtain ⟨d0, e0, hd0, he0, _, hr0⟩ := genHybrid_correct N m π false L delta stiff p0 inp t dt ρ s0 hwf hcl hπ hδ hL hp0 hsol hdt hlin hx0 i X hiX
+  obtain ⟨d1, e1, hd1, he1, _, hr1⟩ := genHybrid_correct N m π true L delta stiff p1 inp t dt ρ s1 hwf hcl hπ hδ hL hp1 hsol hdt hlin hx1 i X hiX
+  have hd : d0 = d1 := derivsFunctional m hwf d0 d1 X hd0 hd1
+  subst hd
+  rw [he0] at he1
+  cases he1
+  rw [hr0, hr1]
+
+/-- **C07 on the `Impl` layer, by value**: with every state stiff the hybrid program writes what the
+generalized Rush–Larsen program writes; with no state stiff it writes the Euler step. -/
+theorem genHybrid_all_value {α} (N : Num α) (m : Model) (π : DepOrder) (ru : Bool) (L : Layout) (delta : Expr)
+    (stiff : List Name) (ph pg : List Stmt) (inp : Inputs α) (t dt : α) (ρ : Env α) (sh sg : St α)
+    (hwf : ModelWF m) (hcl : NoHelperClash m) (hπ : ∀ a ∈ m.assigns, ∀ y ∈ fv a.2, y ∈ π a.1 a.2)
+    (hδ : fv delta = []) (hL : layout m π = some L)
+    (hall : ∀ s ∈ m.stateNames, s ∈ stiff)
+    (hph : genHybrid m π ru delta stiff = some ph) (hpg : genGRL m π ru delta = some pg)
+    (hsol : Solution N m L inp t ρ) (hdt : ρ "dt" = some dt)
+    (hlin : ∀ d X e, m.stateOfDeriv d = some X → m.rhsOf d = some e → ρ (linName d) = eval N ρ (diff X e))
+    (hxh : exec N inp (initScheme t dt) ph = some sh) (hxg : exec N inp (initScheme t dt) pg = some sg) :
+    ∀ i X, L.state[i]? = some X → sh.result i = sg.result i := by
+  intro i X hiX
+  obtain ⟨d0, e0, hd0, he0, _, hr0⟩ := genHybrid_correct N m π ru L delta stiff ph inp t dt ρ sh hwf hcl hπ hδ hL hph hsol hdt hlin hxh i X hiX
+  obtain ⟨d1, e1, hd1, he1, _, hr1⟩ := genGRL_correct N m π ru L delta pg inp t dt ρ sg hwf hcl hπ hδ hL hpg hsol hdt hlin hxg i X hiX
+  have hd : d0 = d1 := derivsFunctional m hwf d0 d1 X hd0 hd1
+  subst hd
+  rw [he0] at he1
+  cases he1
+  obtain ⟨d', hd', _, hds⟩ := (stateOfDeriv_facts m hwf.assigns_nodup).2.2 d0 X hd0
+  have hXs : X ∈ m.stateNames := hwf.derivs.mem_iff.mp (List.mem_map.mpr ⟨d', hd', hds⟩)
+  have hst : X ∈ stiff := hall X hXs
+  have : rlStore (fun s => stiff.contains s) delta X d0 e0 = rlStore (fun _ => true) delta X d0 e0 := by
+    simp [rlStore, hst]
+  rw [hr0, hr1, this]
+
+/-- … and with no state stiff it writes the explicit Euler step -/
+theorem genHybrid_none_value {α} (N : Num α) (m : Model) (π : DepOrder) (ru : Bool) (L : Layout) (delta : Expr)
+    (stiff : List Name) (ph pe : List Stmt) (inp : Inputs α) (t dt : α) (ρ : Env α) (sh se : St α)
+    (hwf : ModelWF m) (hcl : NoHelperClash m) (hπ : ∀ a ∈ m.assigns, ∀ y ∈ fv a.2, y ∈ π a.1 a.2)
+    (hδ : fv delta = []) (hL : layout m π = some L)
+    (hnone : ∀ s ∈ m.stateNames, s ∉ stiff)
+    (hph : genHybrid m π ru delta stiff = some ph) (hpe : genEuler m π ru = some pe)
+    (hsol : Solution N m L inp t ρ) (hdt : ρ "dt" = some dt)
+    (hlin : ∀ d X e, m.stateOfDeriv d = some X → m.rhsOf d = some e → ρ (linName d) = eval N ρ (diff X e))
+    (hxh : exec N inp (initScheme t dt) ph = some sh) (hxe : exec N inp (initScheme t dt) pe = some se) :
+    ∀ i X, L.state[i]? = some X → sh.result i = se.result i := by
+  intro i X hiX
+  obtain ⟨d0, e0, hd0, he0, _, hr0⟩ := genHybrid_correct N m π ru L delta stiff ph inp t dt ρ sh hwf hcl hπ hδ hL hph hsol hdt hlin hxh i X hiX
+  obtain ⟨d1, x, f, hd1, hx, hf, hr1⟩ := genEuler_correct N m π ru L pe inp t dt ρ se hwf hπ hcl.dt hL hpe hsol hdt hxe i X hiX
+  have hd : d0 = d1 := derivsFunctional m hwf d0 d1 X hd0 hd1
+  subst hd
+  obtain ⟨d', hd', _, hds⟩ := (stateOfDeriv_facts m hwf.assigns_nodup).2.2 d0 X hd0
+  have hXs : X ∈ m.stateNames := hwf.derivs.mem_iff.mp (List.mem_map.mpr ⟨d', hd', hds⟩)
+  have hst : X ∉ stiff := hnone X hXs
+  have : rlStore (fun s => stiff.contains s) delta X d0 e0 = ([], eulerStore X d0) := by
+    simp [rlStore, hst]
+  rw [hr0, hr1, this]
+  exact C05.eval_eulerStore N ρ X d0 x dt f (by rw [hsol.1 i X hiX, hx]) hdt hf
 
 end SchemeEndToEnd
 end Gx
